@@ -172,6 +172,9 @@ func (server *SugarDB) handleCommand(ctx context.Context, message []byte, conn *
 			}
 			verifhook.Spin("mutation.wait")
 		}
+		// Clear the flag on every exit path: a write command that fails (or is handed to the
+		// cluster) must not leave it set, otherwise the next state copy waits forever.
+		defer server.stateMutationInProgress.Store(false)
 	}
 
 	if !server.isInCluster() || !synchronize {
@@ -187,7 +190,6 @@ func (server *SugarDB) handleCommand(ctx context.Context, message []byte, conn *
 		}
 
 		verifhook.Yield("cmd.after_log")
-		server.stateMutationInProgress.Store(false)
 
 		return res, err
 	}
